@@ -3,6 +3,7 @@ import Crusta.Proofs.RoundTrip
 import Crusta.Proofs.ReaderWF
 import Crusta.Proofs.ReaderWFApx
 import Crusta.Proofs.LinesNoLf
+import Crusta.Gen.IccmaTokens
 
 /-!
 # C13 — instance readers are total and faithful (property theorems)
@@ -223,5 +224,50 @@ theorem apx_scanners_are_the_source_patterns (bs : List UInt8) (l : Str) (hl : s
 /-- no line handed to the readers contains a line feed, for any input bytes -/
 theorem lines_have_no_line_feed (bs : List UInt8) : ∀ l, some l ∈ lines bs → ∀ c ∈ l, c ≠ 10 :=
   lines_no_lf bs
+
+theorem strOf_p : strOf "p" = [112] := by decide
+theorem strOf_af : strOf "af" = [97, 102] := by decide
+
+/-- **the tokens of the ICCMA'23 reader are those of the source** (regenerated on every run; the
+generator also insists on the shape of the line loop: comment test, empty-line flag,
+`split_whitespace`, `parse::<isize>` with `n >= 0`): a line starting with the comment character is
+skipped in every state; a preamble is accepted only with the source's number of words, first word
+and kind; the arguments are labelled from the source's first label on -/
+theorem iccma_tokens_are_the_source :
+    (∀ (st : IccmaSt) (l : Str), l.head? = some Gen.iccmaComment → iccmaLine st (some l) = .ok st) ∧
+    (∀ (ws : List Str) (n : Nat), readPreamble ws = .ok n →
+      ws.length = Gen.iccmaPreambleWords ∧ ws[0]? = some Gen.iccmaFirstWord ∧ ws[1]? = some Gen.iccmaKind) ∧
+    (∀ n : Nat, n ≤ 9223372036854775807 → readPreamble [Gen.iccmaFirstWord, Gen.iccmaKind, natToStr n] = .ok n) ∧
+    (∀ (st : IccmaSt) (af : IccmaFw) (l : Str) (st' : IccmaSt), st.af = some af → st.foundEmpty = false →
+      l.head? ≠ some Gen.iccmaComment → l ≠ [] → iccmaLine st (some l) = .ok st' →
+      (splitWs l).length = Gen.iccmaAttackWords) ∧
+    Gen.iccmaFirstLabel = 1 := by
+  refine ⟨?_, ?_, ?_, ?_, rfl⟩
+  · intro st l h
+    simp [iccmaLine, h, Gen.iccmaComment]
+  · intro ws n h
+    unfold readPreamble at h
+    split at h
+    · rename_i w0 w1 w2
+      split at h
+      · cases h
+      · rename_i h0
+        split at h
+        · cases h
+        · rename_i h1
+          simp only [bne_iff_ne, ne_eq, Decidable.not_not] at h0 h1
+          simp [Gen.iccmaPreambleWords, Gen.iccmaFirstWord, Gen.iccmaKind, ← strOf_p, ← strOf_af, h0, h1]
+    · cases h
+  · intro n hn
+    have hp := parseIsize_natToStr n hn
+    simp [readPreamble, Gen.iccmaFirstWord, Gen.iccmaKind, ← strOf_p, ← strOf_af, hp]
+  · intro st af l st' haf hfe hc hne h
+    have hc' : (l.head? == some 35) = false := by
+      simpa [Gen.iccmaComment] using hc
+    have hne' : l.isEmpty = false := by cases l <;> simp_all
+    simp only [iccmaLine, hc', hne', hfe, haf, Bool.false_eq_true, if_false] at h
+    split at h
+    · simp [Gen.iccmaAttackWords, *]
+    · cases h
 
 end Crusta.C13
